@@ -3,7 +3,7 @@ import ext_engines
 
 # model .vo files the extraction depends on (relative to coq/)
 MODEL_VO = ['gen/Consts.vo', 'gen/CrcTables.vo', 'model/Bytes.vo', 'model/Codec.vo', 'model/Order.vo', 'model/Crc.vo',
-            'model/Block.vo', 'model/Writer.vo', 'model/WriteLoop.vo', 'spec/Leb128.vo', 'spec/Parse.vo', 'model/Reader.vo', 'spec/TableCheck.vo', 'spec/Encode.vo', 'model/Verify.vo', 'model/Tools.vo', 'model/Compress.vo', 'model/Heap.vo', 'model/Merger.vo', 'model/Sorter.vo', 'model/Fileset.vo', 'model/Ledger.vo', 'model/Pool.vo', 'proofs/PoolLife.vo', 'model/Resources.vo']
+            'model/Block.vo', 'model/Writer.vo', 'model/WriteLoop.vo', 'spec/Leb128.vo', 'spec/Parse.vo', 'model/Reader.vo', 'spec/TableCheck.vo', 'spec/Encode.vo', 'model/Verify.vo', 'model/Tools.vo', 'model/Compress.vo', 'model/Heap.vo', 'model/Merger.vo', 'model/Sorter.vo', 'model/Fileset.vo', 'model/Ledger.vo', 'model/Pool.vo', 'proofs/PoolLife.vo', 'proofs/PoolFairEx.vo', 'model/OpenModel.vo', 'model/Resources.vo']
 # OCaml modules of the driver, in link order
 OCAML_MODULES = ['common', 'gen', 'enc', 'c16', 'wr', 'c20', 'rd', 'c19', 'c17', 'c12', 'c15', 'mg', 'so', 'fs', 'lk', 'pl', 'main']
 C_VARIANTS_SETUP = ('all', 'tsan')
@@ -40,7 +40,7 @@ PROPS = {
             'mtbl_writer_init on an existing path: model/OpenModel.v states the POSIX meaning of the open(2) flags (O_CREAT|O_EXCL fails on any existing name without following links; O_TRUNC empties); the flag list itself is scraped from the source on every run; that the kernel implements this meaning is validated by the driver on regular/empty/symlink/dangling-symlink/directory targets',
             'the clause "the finished file holds exactly the accepted entries" is checked on the implementation with the extracted independent decoder; its theorem is T09/T01 (reader side)',
         ],
-        'explanation': 'T08a (gate + refused add leaves the state unchanged), T08b (every add sequence: results = "strictly greater than last accepted", no abort), T08e (bytes_compare is the stated total order), T08f (for every file system and every path naming anything, the open(2) call of mtbl_writer_init - flags scraped from the source - fails and leaves the file system unchanged; on a fresh path it creates exactly that file; the reader's open changes nothing). Correspondence: real writer vs model writer byte for byte, results vs the rule, refused adds vs the file written from the accepted adds alone.',
+        'explanation': 'T08a (gate + refused add leaves the state unchanged), T08b (every add sequence: results = "strictly greater than last accepted", no abort), T08e (bytes_compare is the stated total order), T08f (for every file system and every path naming anything, the open(2) call of mtbl_writer_init - flags scraped from the source - fails and leaves the file system unchanged; on a fresh path it creates exactly that file; the open call of the reader changes nothing). Correspondence: real writer vs model writer byte for byte, results vs the rule, refused adds vs the file written from the accepted adds alone.',
     },
     'C10': {
         'engines': [{'name': 'wr', 'timeout_quick': 600, 'timeout_thorough': 7200}],
@@ -132,8 +132,9 @@ PROPS = {
         'engines': [{'name': 'pl', 'timeout_quick': 900, 'timeout_thorough': 7200}, {'name': 'wr', 'timeout_quick': 600, 'timeout_thorough': 7200}, {'name': 'so', 'timeout_quick': 600, 'timeout_thorough': 7200}],
         'trusted_base': ['schedule-controlling pthread shim: threadpool.c compiled with -include harness/vp_pthread.h, run by harness/poolsched.c (one thread at a time; mutex/condition state emulated; POSIX semantics of lock/unlock/cond_wait/signal/create/join assumed as emulated there)'],
         'assumptions': ['single caller thread in the LTS (several callers sharing a pool are exercised with real threads under TSan, C14)',
-                        'hypotheses of T13_no_abort / T13b / T13_exactly_once: the caller program respects the API contract (prog_wf, executable) and a signal wakes only a thread that is blocked on a condition variable (sched_wf); engine pl checks both on every trace',
-                        'absence of deadlock is NOT proved (T13d_refuted shows the statement needs the hypothesis that a signal wakes a waiter if one exists); engine pl reports every deadlock of the real code on the explored schedules',
+                        'hypotheses of T13_no_abort / T13b / T13_exactly_once / T13_ordered_*: the caller program respects the API contract (prog_wf, executable) and a signal wakes only a thread that is blocked on a condition variable (sched_wf); engine pl checks both on every trace',
+                        'hypotheses of T13d_fair (no hang): additionally the program ends with the destruction of the pool, 1 <= pool size < 2^64, and every signal wakes a waiter of that condition variable if one exists (sched_fair = the guarantee of pthread_cond_signal; spurious wake-ups and the choice of the waiter stay arbitrary); engine pl evaluates the extracted checker wake_fairb (proved sound) at every signal step of every trace',
+                        'no-hang is proved on the LTS as: a state where no thread can run is a state where every thread has exited (T13d_fair); that the scheduler eventually runs an enabled thread (fairness of the OS scheduler) is outside any model; without sched_fair the statement is machine-checked false (T13d_refuted); engine pl reports every deadlock of the real code on the explored schedules',
                         'the writer/sorter clauses (byte-identical file, same entries) are checked with real threads by engines wr and so over pools 0..8; their proof is the composition T13b + purity of the compress/write-chunk jobs, not yet written'],
         'explanation': 'LTS of threadpool.c at pthread-operation granularity (model/Pool.v). Engine pl: the real threadpool.c under controlled schedules - default, every single preemption of it, seeded random with random signal targets and spurious wake-ups, pairs of preemptions (thorough) - replayed on the LTS with the enabled-thread set compared after every step; deadlock, assertion failure, lost/duplicated/reordered results and too many workers are violations.',
     },
